@@ -110,6 +110,7 @@ fn parse_flag(s: &str) -> Result<Value, ParseError> {
 }
 
 fn parse_raw_char(s: &str) -> Result<char, ParseError> {
+    let s = value::percent_decode(s).map_err(|_| ParseError::InvalidCharacter)?;
     let mut chars = s.chars();
 
     if let Some(c) = chars.next()
